@@ -293,6 +293,7 @@ def special_forms(ctx):
          lambda cs: (cs.add_type("BYTE", cs.uint16, replace=True), cs.add_type("WORD", "uint64", replace=True),
                      cs.add_type("DWORD", cs.q, replace=True), cs.add_type("QWORD", "RE", replace=True),
                      cs.load("struct T { BYTE a; WORD b; DWORD c; QWORD d; };"))),
+        ("empty-enum", "enum EmptyE { };\nstruct T { uint8 a; };", None),
         ("wchar-char-arrays", "struct T { char a[4]; wchar b[2]; char c[]; wchar d[]; char *s; uint8 **pp; };", None),
     ]
     for label, text, post in forms:
